@@ -242,7 +242,7 @@ class FuncAnalysis:
         out = frozenset((VALS, s_) for _k, s_ in only(et, {VAL, VALS, KEYS}))
         out |= retag(only(et, {SET}), {SET}, CSET)
         if isinstance(e, ast.SetComp):
-            if self.eng.cfg_client.element_unstable(self, e.elt):
+            if self.eng.cfg_client.element_unstable(self, e):  # the whole comprehension: what the element is depends on the iteration target
                 out |= frozenset({(SET, self.site(e, "set-comp"))})
             return out
         out |= retag(order, {SET, ORDL, ORDD}, ORDL)
